@@ -167,6 +167,83 @@ def main():
         if alive:
             failures.append("journal entries keep an IR object alive (strong reference)")
     evaluations += 3
+    # (d) one-shot iterables handed to bulk mutators: the journal must observe without consuming them
+    def bulk_history(journal):
+        g = ir.Graph([], [], nodes=[], name="gb")
+        mk = lambda k: ir.Node("", "Op", inputs=[], num_outputs=1, name=f"b{k}")  # noqa: E731
+        a, b, c, d, e, f, h = (mk(k) for k in range(7))
+        vals = [ir.Value(name=f"in{k}") for k in range(3)]
+        log = []
+        def run():
+            g.extend(n for n in (a, b))
+            log.append([n.name for n in g])
+            g.insert_after(a, iter([c]))
+            log.append([n.name for n in g])
+            g.insert_before(a, (n for n in [d]))
+            log.append([n.name for n in g])
+            b.append(iter([e]))
+            log.append([n.name for n in g])
+            b.prepend(n for n in [f])
+            log.append([n.name for n in g])
+            g.remove(n for n in [c, d])
+            log.append([n.name for n in g])
+            g.inputs.extend(v for v in vals)
+            log.append([v.name for v in g.inputs])
+        if journal:
+            with journaling.Journal():
+                run()
+        else:
+            run()
+        return log
+    try:
+        plain, journaled = bulk_history(False), bulk_history(True)
+        if plain != journaled:
+            k = next(i for i, (x, y) in enumerate(zip(plain, journaled)) if x != y)
+            failures.append(f"bulk mutators fed by one-shot iterators: step {k} gives {journaled[k]} inside a journal, {plain[k]} outside")
+    except Exception as ex:  # noqa: BLE001
+        failures.append(f"bulk mutators fed by one-shot iterators raised {ex!r} (inside or outside a journal)"[:300])
+    # (e) a journal object used twice records the second block like a fresh journal would
+    def ten_ops():
+        g = ir.Graph([], [], nodes=[], name="gr")
+        n = ir.Node("", "Op", inputs=[], num_outputs=1, name="r0")
+        g.append(n)
+        n.name = "r1"
+        n.outputs[0].name = "o"
+        g.outputs.append(n.outputs[0])
+        g.remove(n, safe=False) if False else None
+    j1 = journaling.Journal()
+    with j1:
+        ten_ops()
+    first = len(j1.entries)
+    try:
+        with j1:
+            inside = journaling.get_current_journal() is j1
+            ten_ops()
+        second = len(j1.entries) - first
+        with journaling.Journal() as fresh:
+            ten_ops()
+        if not inside:
+            failures.append("a journal entered a second time is not the current journal inside its block")
+        if second != len(fresh.entries):
+            failures.append(f"a journal entered a second time recorded {second} entries for a history that a fresh journal records with {len(fresh.entries)}")
+    except Exception as ex:  # noqa: BLE001
+        failures.append(f"re-entering a used journal raised {ex!r}"[:300])
+    if journaling.get_current_journal() is not None:
+        failures.append("a journal is still current after every block was left")
+    # (f) objects that were locals/arguments of frames on the recorded call stacks die when the caller drops them
+    def worker():
+        g = ir.Graph([], [], nodes=[], name="gw")
+        n = ir.Node("", "Op", inputs=[], num_outputs=1, name="w0")
+        g.append(n)
+        n.outputs[0].name = "wo"
+        return id(g), id(n), id(n.outputs[0])
+    with journaling.Journal() as jw:
+        ids = worker()
+        gc.collect()
+        alive = sorted({e.operation for e in jw.entries if e.object_id in ids and e.ref is not None and e.ref() is not None})
+        if alive:
+            failures.append(f"journal entries keep IR objects alive after the function that created them returned (entries: {alive[:4]})")
+    evaluations += 3
     known = {}
     kf = os.path.join(ROOT, "known_findings.json")
     if os.path.exists(kf):
